@@ -698,10 +698,31 @@ def r_cumul(E):
         res.findings.append(Finding("R-CUMUL", "check after assignment", "the negative-storage check runs after the value "
                                     "was installed", rel, chk[0].lineno, fn.name))
     elif chk:
+        from ..astutil import fully_expanded as _fxn
         t = chk[0].test
-        if not (isinstance(t, ast.Compare) and isinstance(t.ops[0], ast.Lt) and norm(t.comparators[0]) == "0"
-                and "min()" in norm(t.left)):
+        ok_shape = isinstance(t, ast.Compare) and len(t.ops) == 1 and isinstance(t.ops[0], ast.Lt) \
+            and "min()" in norm(_fxn(t.left, fn))
+        if not ok_shape:
             res.undecided.append(f"negativity test `{norm(t)[:60]}` not recognised")
+        else:
+            thr = _fxn(t.comparators[0], fn)
+            if isinstance(thr, ast.Constant) and thr.value == 0:
+                # writes and their expiries after the storage duration cancel out only up to floating point noise
+                res.findings.append(Finding(
+                    "R-CUMUL", "negativity check against exact zero",
+                    "the cumulative storage need — a float running sum in which every replicated write is later cancelled "
+                    "by its expiry — is rejected when its minimum is `< 0`: the cancellation leaves noise such as "
+                    "-8.9e-16 TB, so a model in which no job deletes anything is refused for negative storage (4 of 40 "
+                    "random traffic series)", rel, chk[0].lineno, fn.name))
+            else:
+                neg = isinstance(thr, ast.UnaryOp) and isinstance(thr.op, ast.USub) or (
+                    isinstance(thr, ast.BinOp) and isinstance(thr.left, ast.UnaryOp) and isinstance(thr.left.op, ast.USub)) or (
+                    isinstance(thr, ast.BinOp) and isinstance(thr.left, ast.Constant) and isinstance(thr.left.value, (int, float))
+                    and thr.left.value < 0)
+                relative = "max()" in norm(thr) or "abs(" in norm(thr)
+                if not (neg and relative):
+                    res.undecided.append(f"negativity threshold `{norm(thr)[:60]}` is neither zero nor a negative tolerance "
+                                         f"relative to the size of the series")
     rel, fn = pm.find_function(ST, "Storage.update_storage_delta")
     res.instances += 1
     terms = set()
